@@ -71,7 +71,12 @@ func verifAtomName() string {
 	name := ""
 	for i := 0; i < k; i++ {
 		c := verifrt.Range(0, verifrt.Param("POOL"))
-		if c == 0 {
+		if c == 0 && verifrt.Param("ALPHA") == 1 {
+			// tiny alphabet around '/': 'a', '.', '-' and '0' (many-entry variants)
+			b := verifrt.NondetByte()
+			verifrt.Assume(verifrt.Or(verifrt.Or(b == 'a', b == '.'), verifrt.Or(b == '-', b == '0')))
+			name += string([]byte{b})
+		} else if c == 0 {
 			// free bytes are ASCII; non-ASCII sequences (HFS-ignorable code
 			// points, malformed UTF-8) come from the pool, so that the
 			// library's Unicode case tables are not searched symbolically
@@ -89,7 +94,7 @@ func verifAtomName() string {
 var verifModes = []filemode.FileMode{filemode.Regular, filemode.Dir, filemode.Symlink, filemode.Submodule, filemode.Executable, filemode.Deprecated, filemode.Empty}
 
 func verifEntries() ([]TreeEntry, []verifgit.Entry) {
-	n := verifrt.Range(1, verifrt.Param("ENTRIES"))
+	n := verifrt.Range(verifrt.Param("ENTRIESMIN"), verifrt.Param("ENTRIES"))
 	es := make([]TreeEntry, n)
 	ms := make([]verifgit.Entry, n)
 	for i := range es {
